@@ -18,7 +18,7 @@ f_hlo = z3.Function("hdr_lo", I, I, I, I)             # (file,pos,dim)
 f_hhi = z3.Function("hdr_hi", I, I, I, I)
 f_hnc = z3.Function("hdr_nc", I, I, I)
 f_canon = z3.Function("hdr_canon", I, I, B)           # the line at pos is byte-for-byte hdrline(lo,hi,nc)
-f_exists = z3.Function("exists", I, B)
+f_exists = z3.Function("file_exists", I, B)
 f_hdrlen = z3.Function("hdrlen", *([I] * 7 + [I]))    # len(hdrline(lo0..2,hi0..2,nc)) (2-D: third pair = 0)
 
 
@@ -122,7 +122,7 @@ class RFile:
         avail = z3.If(size - pos > 0, (size - pos) / 8, 0)
         c3 = to_z3(count)
         n = z3.If(c3 < 0, avail, z3.If(c3 <= avail, c3, avail))
-        n = simp(n)
+        n = ex.ctx.define(n, "nread")
         F = self.F
         arr = NDArray([n], lambda idx, pos=pos: f_f64(F, to_z3(pos) + 8 * to_z3(idx[0])), "f8")
         arr.from_file = (F, pos)
